@@ -327,7 +327,7 @@ static _Bool xv_new_content_ok(kkey_t key) { return pool[IN].data.value.first ==
 #define XV_INV_ERK (bucket < NB && fi_valid(&info, bucket) && guard_valid(info.cur) && er_phase == 0 && er_reclaims == 0 && er_finds_after_mark == 0 && !er_unlink_ok)
 #define XV_HAVOC_ERK info.prev = nondet_cell(); info.next = nondet_word(); info.cur = nondet_word(); info.save = nondet_word(); havoc_shared(); havoc_monitors(); \
    er_cur = nondet_uptr(); er_prev = nondet_cell(); mon_obs_curnext = nondet_uptr()
-#define XV_INV_ERI (next == mon_obs_curnext && er_phase == 0 && er_reclaims == 0 && er_finds_after_mark == 0 && !er_unlink_ok && abs_find_calls == 0)
+#define XV_INV_ERI (next == mon_obs_curnext && (MP_mark(next) == 0 || (is_node(er_cur) && pool[idx_of(er_cur)].next == next)) /* a marked next field is frozen */ && er_phase == 0 && er_reclaims == 0 && er_finds_after_mark == 0 && !er_unlink_ok && abs_find_calls == 0)
 #define XV_HAVOC_ERI next = nondet_word(); mon_obs_curnext = next; havoc_shared(); { unsigned xc = abs_find_calls; havoc_monitors(); abs_find_calls = xc; } /* GDEREF(pos.info.cur)->next */
 
 #include "lowered.h"
